@@ -171,6 +171,12 @@ func RunStore(c *h.Ctx, sc StoreCase, owner string) {
 			gone[op.I%len(gone)].present = true
 			changes++
 			changedSinceCheck = true
+		case "restore-exact":
+			if e := pool[op.I%len(pool)]; !e.present {
+				e.present = true
+				changes++
+				changedSinceCheck = true
+			}
 		case "fail":
 			pool[op.I%len(pool)].failing = true
 			changes++
@@ -458,6 +464,21 @@ func DrawStore(t *rapid.T, focus string) StoreCase {
 	for i := 0; i < nops; i++ {
 		k := rapid.SampledFrom(kinds).Draw(t, "op")
 		sc.Ops = append(sc.Ops, StoreOp{Kind: k, I: rapid.IntRange(0, 95).Draw(t, "opi")})
+	}
+	// the fetch-and-retry pattern: a check that fails because ONE proof of the invocation is not in the store yet,
+	// the proof is fetched, the SAME invocation object is checked again. The second verdict is the one a first
+	// check against the complete store gives - nothing learnt during the failed attempt may stand in for a rule.
+	for g := rapid.IntRange(0, 2).Draw(t, "retries"); g > 0; g-- {
+		k := rapid.IntRange(0, len(sc.Invs)-1).Draw(t, "retry_inv")
+		if len(sc.Invs[k].Proof) == 0 {
+			continue
+		}
+		j := rapid.IntRange(0, len(sc.Invs[k].Proof)-1).Draw(t, "retry_pos")
+		p := sc.Invs[k].Proof[j]
+		grp := []StoreOp{{Kind: "remove", I: p}, {Kind: rapid.SampledFrom([]string{"check", "check", "check-hook"}).Draw(t, "retry_c1"), I: k}, {Kind: "restore-exact", I: p}, {Kind: rapid.SampledFrom([]string{"check", "check", "check-hook"}).Draw(t, "retry_c2"), I: k}}
+		at := rapid.IntRange(0, len(sc.Ops)).Draw(t, "retry_at")
+		sc.Ops = append(append(append([]StoreOp{}, sc.Ops[:at]...), grp...), sc.Ops[at:]...)
+		sc.Dev = append(sc.Dev, fmt.Sprintf("retry-after-fetch@%d/%d", j, len(sc.Invs[k].Proof)))
 	}
 	sc.Ops = append(sc.Ops, StoreOp{Kind: "check", I: rapid.IntRange(0, 23).Draw(t, "lastcheck")})
 	return sc
